@@ -81,4 +81,3 @@ package metrics
 //@   property C19
 //@ struct mustcall RegisterMetric : sync.Map.LoadOrStore
 //@   property C19
-
